@@ -73,3 +73,13 @@ Definition discover_spec (sup offer : list pv) : list pv :=
   | [] => sup
   | _ => flat_map (fun o => match first_match o sup with Some v => [v] | None => [] end) offer
   end.
+
+(* several Discover Versions items of one request, handled one after the other on the same heap: all the replies are
+   kept (in the response under construction) until the last one has been produced *)
+Fixpoint discover_batch (h : heap) (sup : slice) (offers : list (list pv)) : heap * list slice :=
+  match offers with
+  | [] => (h, [])
+  | o :: r =>
+      let '(h1, s) := handle_discover h sup o in
+      let '(h2, ss) := discover_batch h1 sup r in (h2, s :: ss)
+  end.
